@@ -305,11 +305,12 @@ def showOutcome (c : Config) (P : Params) (names : List Bytes) : Outcome → Str
 
 def parseSite (s : String) : Option Site :=
   match s.splitOn "." with
-  | [a, b, d] => do
+  | [a, b, d, t] => do
     let a ← nat? a
     let b ← nat? b
     let d ← nat? d
-    if a ≤ 2 ∧ d < 65536 ∧ ¬(b = 0 ∧ d = 0) then some ⟨a, b, d⟩ else none
+    let t ← (match t with | "0" => some false | "1" => some true | _ => none)
+    if a ≤ 2 ∧ d < 65536 ∧ ¬(b = 0 ∧ d = 0) then some ⟨a, b, d, t⟩ else none
   | _ => none
 
 def cfHostOK (b : Bytes) : Bool :=
@@ -322,17 +323,50 @@ def showCFServer (s : Server) : String :=
   joinOr "," (((allHosts s).foldr insertSorted []).map toString) ++
   (if s.routes.any (fun r => r.hms.isEmpty) then "*" else "")
 
-/-- `cf <hp> <sp> <opts> <names> <sites>`: the Caddyfile adapter's part (see Caddyfile.lean) -/
-def handleCF (hp sp opts names sites : String) : String :=
-  match nat? hp, nat? sp, bits? opts, list? ";" Hex.decode names, list? ";" parseSite sites with
-  | some hp, some sp, some [o1, o2, o3, o4], some names, some sites =>
+/-- the parameters computed from the name strings (no loaded certificate; the HTTP host matcher
+    is not consulted by the `cf` answer) -/
+def realParamsD (names : List Bytes) : Params :=
+  { q := fun d => match names[d]? with | some s => qualifiesForCert s | none => false
+    pub := fun d => match names[d]? with | some s => qualifiesForPublic s | none => false
+    ip := fun d => match names[d]? with | some s => isIP s | none => false
+    internal := fun d => match names[d]? with | some s => isInternal s | none => false
+    loaded := fun _ => false
+    ts := fun d => match names[d]? with | some s => isTailscale s | none => false
+    mw := fun d e => match names[d]?, names[e]? with | some s, some t => matchWildcard s t | _, _ => false
+    hm := fun _ _ => false }
+
+/-- the adapter names the servers srv0, srv1, … in ascending port order: any names in that order do -/
+def cfSrvName (s : Server) : Bytes :=
+  match s.listen with
+  | a :: _ => List.replicate (6 - (toString a.sp).length) 48 ++ (toString a.sp).toUTF8.toList
+  | [] => []
+
+def showOutcomeCF (P : Params) (names : List Bytes) : Outcome → String
+  | .ok r =>
+    "c=" ++ String.join ((List.range names.length).map fun d => showBit (r.certs.contains d)) ++
+      (if r.certs.any (fun d => decide (names.length ≤ d)) then "!" else "") ++
+    " p=" ++ joinOr ";" (r.policies.map (showPolicy names.length)) ++
+    " m=" ++ showManaging P names r
+  | _ => "perr"
+
+/-- `cf <hp> <sp> <opts> <names> <sites> <T> <A>`: the Caddyfile adapter's part (see
+    Caddyfile.lean), then phase 1 + phase 2 on what it produced.  `T` = the automation policies the
+    adapter emits (an input here: buildTLSApp's consolidation is not modelled), `A` must be `-`. -/
+def handleCF (hp sp opts names sites t a : String) : String :=
+  match nat? hp, nat? sp, bits? opts, list? ";" Hex.decode names, list? ";" parseSite sites,
+        list? ";" parsePolicy t with
+  | some hp, some sp, some [o1, o2, o3, o4], some names, some sites, some pols =>
     if hp < 65536 ∧ sp < 65536 ∧ names.head? = some [] ∧ names.length ≤ 12 ∧ names.all cfHostOK ∧ nodupB names ∧
-       sites ≠ [] ∧ sites.length ≤ 8 ∧ sites.all (fun s => decide (s.name < names.length)) then
-      match adapt ⟨hp, sp, o1, o2, o3, o4, sites⟩ with
+       sites ≠ [] ∧ sites.length ≤ 8 ∧ sites.all (fun s => decide (s.name < names.length)) ∧ a = "-" ∧
+       pols.all (fun p => p.subjects.all (· < names.length)) then
+      match adaptWith ⟨hp, sp, o1, o2, o3, o4, sites⟩ pols with
       | none => "err"
-      | some c => "ok " ++ joinOr ";" (c.servers.map showCFServer)
+      | some c =>
+        "ok " ++ joinOr ";" (c.servers.map showCFServer) ++ " T=" ++ t ++ " A=" ++ a ++ " | " ++
+          showOutcomeCF (realParamsD names) names
+            (phase1 c (realParamsD names) (sortedOrders c (c.servers.map fun s => cfSrvName s) names))
     else "bad-op"
-  | _, _, _, _, _ => "bad-op"
+  | _, _, _, _, _, _ => "bad-op"
 
 /-- `nm <hex a> <hex b>`: certmagic's predicates on `a`, and `MatchWildcard(a, b)` -/
 def handleNM (a b : String) : String :=
@@ -352,7 +386,7 @@ def flagsMatchModel (names : List NameInfo) : Bool :=
 
 def handle : List String → String
   | ["nm", a, b] => handleNM a b
-  | ["cf", hp, sp, opts, names, sites] => handleCF hp sp opts names sites
+  | ["cf", hp, sp, opts, names, sites, t, a] => handleCF hp sp opts names sites t a
   | ["cfg", k, hp, sp, names, servers, policies, loaded] =>
     match nat? k, nat? hp, nat? sp, list? ";" parseName names, list? ";" parseServer servers,
           list? ";" parsePolicy policies, bits? loaded with
